@@ -125,3 +125,5 @@ func vInitArgs(args *config.Args) {
 		dlog.Start(context.Background(), &wg, source.Client)
 	})
 }
+
+func vGetenv(k string) string { return os.Getenv(k) }
